@@ -24,6 +24,8 @@ MODELS = {
     ("shape", "thorough"): "MC_Graph_shape_t.cfg",
     ("dup", "quick"): "MC_Graph_dup_q.cfg",
     ("dup", "thorough"): "MC_Graph_dup_t.cfg",
+    ("ver2", "quick"): "MC_Graph_ver2_q.cfg",
+    ("ver2", "thorough"): "MC_Graph_ver2_t.cfg",
 }
 
 
@@ -183,7 +185,7 @@ def run_property(prop, tier, report):
     # shape: encode-relevant shapes (import-less package, repeated instantiation, type items,
     # anonymous compound tuple element), creation operations only
     # dup: versions of one package, exports of one instance sharing a function type, a compound result type
-    libs = ["core", "ver", "shape", "dup"]
+    libs = ["core", "ver", "shape", "dup", "ver2"]
     total_states = total_trans = 0
     summaries = {}
     samples = []
